@@ -319,6 +319,10 @@ func (o *ONS) newName() string {
 // and then one that was never created, or a sub-name of a created one.
 func (o *ONS) pickName(c *Ctx) string {
 	top := o.names[pick(c.R, len(o.names))]
+	if n := len(o.names); n > 8 && c.R.Intn(3) != 0 {
+		// mostly the recent ones, so that a name sees more than one operation
+		top = o.names[n-8+pick(c.R, 8)]
+	}
 	switch c.R.Intn(12) {
 	case 0:
 		return fmt.Sprintf("ghost%s%d.ol", o.Tag, c.R.Intn(5))
@@ -385,14 +389,14 @@ func (o *ONS) random(c *Ctx) []hist.TxSpec {
 		who := o.actor(c, parent)
 		onSale := d != nil && d.OnSale && version <= d.Expire
 		expired := d != nil && version > d.Expire
-		op := c.R.Intn(14)
+		op := c.R.Intn(16)
 		switch {
 		case d == nil && isSub && c.R.Intn(4) != 0:
 			op = 0
 		case onSale && c.R.Intn(2) == 0:
-			op = 12
+			op = 15
 		case expired && !isSub && c.R.Intn(2) == 0:
-			op = 12
+			op = 15
 		}
 		switch op {
 		case 0, 1:
@@ -413,11 +417,11 @@ func (o *ONS) random(c *Ctx) []hist.TxSpec {
 				benef = other
 			}
 			uri := ""
-			switch c.R.Intn(4) {
-			case 0:
+			switch c.R.Intn(8) {
+			case 0, 1, 2:
 				uri = "https://" + name + "/"
-			case 1:
-				uri = "mailto:" + name
+			case 3:
+				uri = "mailto:" + name // not an accepted scheme: must fail
 			}
 			out = append(out, onsUpdate(c, who, benef, name, active, uri, "update"))
 		case 5, 6:
@@ -429,13 +433,13 @@ func (o *ONS) random(c *Ctx) []hist.TxSpec {
 			out = append(out, onsSell(c, who, name, price.String(), cancel, "sell"))
 		case 7, 8, 9:
 			out = append(out, onsSend(c, other, name, fmt.Sprint(1+c.R.Int63n(5e18)), "send to name"))
-		case 10:
+		case 10, 11:
 			fee := mul(2 + c.R.Intn(40))
 			if c.R.Intn(6) == 0 {
 				fee = mul(1) // not above the per-block fee: must fail
 			}
 			out = append(out, onsRenew(c, who, name, fee.String(), "renew"))
-		case 11:
+		case 12:
 			out = append(out, onsDeleteSub(c, who, name, "delete sub-domain(s)"))
 		default:
 			buyer := other
